@@ -57,14 +57,14 @@ def run(ctx):
         ctx.sample({"generated_case": smp})
     os.unlink(g.out_path)
     # 3. impl -> spec
-    n = 1500 if quick else 12000
+    n = 1500 if quick else 24000
     tr = os.path.join(ctx.scratch, "respspace.ndjson")
     recs, _, _ = ctx.harness(binp, ["random", tr, "-seed", ctx.seed, "-n", n, "-workers", 8], timeout=900)
     s2 = ctx.summary(recs)
     lap("random_harness")
     parts = split(ctx, tr)
     ctx.specdir()
-    with ThreadPoolExecutor(max_workers=4) as ex:
+    with ThreadPoolExecutor(max_workers=6) as ex:
         results = list(ex.map(lambda p: lenient_walk(ctx, p), parts))
     lap("trace_validation_tlc")
     bad = sorted(i for res in results for i in res)
